@@ -87,7 +87,7 @@ TABLE['C09'] = {
     ],
     'trusted_base': ['PyVC (pyvc/*.py) incl. the dict model', 'z3 5.1.0'],
     'not_covered': ['Environment.save/load field-by-field inverse and the version upgrade chain (bounded run only, see evidence.bounded)',
-                    'toolchain replay after reload, platform/tool detection, driver frame conditions'],
+                    'platform/tool detection deductively (bounded: ToolchainReplay, RegenerateElsewhere, RunInvocation)', 'package flags (-P) given at configure time are not part of the saved configuration (reported, untriaged: side9)'],
     'level_text': 'Deductive proof that every public mutator of EnvVarDict (the overridden ones from their real source, the inherited ones from dict\'s library contract) preserves "changes applied to initial == current" for all maps and all keys, that __init__/from_json establish it, and that the lazily recomputed changes of a reloaded object are exactly the differences; the inherited |= defect this exposed was repaired (fix commit).',
     'level_note': 'Trusted: PyVC and its dict model, z3. Not covered deductively: Environment.save/load and the upgrade chain (bounded), toolchain replay.',
 }
@@ -102,8 +102,8 @@ TABLE['C03'] = {
         'emitter contracts (contracts/emitters.py): the step object is abstract (arbitrary field values), its dependency lists have the lengths 0..2 (list concatenation is uniform in the length; not an induction), callees (multitarget_rule, command_build, Makefile.rule / NinjaFile.build / default / rule / define, the tool objects, flags_vars, _install_files, _build_commands ...) are recorded opaque calls with abstract results; Variable objects for plain-word names are constructed without the constructor\'s re.sub (it only rewrites non-word characters)',
     ],
     'trusted_base': ['PyVC (pyvc/*.py) incl. dict/set model', 'z3 5.1.0'],
-    'not_covered': ['per-builtin emitters (make_compile, ninja_link, ...) listing every consumed file', 'multitarget_rule stamp files', 'Edge registration, BuildRuleHandler dispatch',
-                    'default-set bookkeeping (DefaultOutputs), test/install/alias targets', 'rebuild behaviour of make/ninja given the graph'],
+    'not_covered': ['emitters other than the ones under contract (dist, msbuild, java/qt/yacc specific steps)', 'multitarget_rule stamp files deductively (bounded MultiOutputStep only)', 'Edge registration, BuildRuleHandler dispatch',
+                    'default-set bookkeeping DefaultOutputs.add / remove (the `all` goal emitters and the outputs property are under contract)', 'rebuild behaviour of make given the graph beyond the bounded edit histories; ninja itself (no binary)'],
     'level_text': 'Deductive proof that Makefile.rule and NinjaFile.build never give a target text a second producing rule and record exactly the call\'s targets (for all target lists and all previous states), and that ninja command_build passes every given dependency (plus PHONY) to the single build statement it emits. Only these data-structure and emitter kernels of the property are carried; the per-builtin dependency lists and rebuild behaviour are not. Bounded (real pipeline): a generated project with an explicitly described graph (generated header, build steps with files/extra_deps/command inputs, a symlink copy, a test-only program) has exactly the described prerequisites and default set in both backends.',
     'level_note': 'Trusted: PyVC, z3. Partial claim: duplicate-output rejection and command_build only; everything listed under not_covered is unverified.',
 }
@@ -127,6 +127,7 @@ TABLE['C17'] = {
     'level': 'proof',
     'assumptions': [
         'versions form a dense total order without end points (modelled by the reals); `v in Specifier(op, w)` is the comparison (specs/verorder.py); PEP 440 pre/post-release quirks are outside the model',
+        'the version *text* of a specifier is identified with its position in that order (Version(text) is the identity of the model): the deductive contract cannot tell a comparison of texts from a comparison of versions; that difference is decided only by the bounded SimplifyNative run over a multi-digit version family (1.9 / 1.10 / 2.0) on the real verspec objects, which found the text comparison repaired in e0f4fed',
         'SpecifierSet(text) built from str() of specifiers denotes their conjunction (verspec print/parse round trip), keyed to the three return expressions of simplify_specifiers by their source text',
         'a filtering list comprehension keeps exactly the elements that satisfy the condition (stated as ALLNEF)',
         'the invariant and the postcondition are proved at an arbitrary version v (ghost constant)',
@@ -149,7 +150,7 @@ TABLE['C20'] = {
         'uuid.uuid4() is an opaque source of fresh values; file I/O of the GUID map = json round trip (bounded run only)',
     ],
     'trusted_base': ['PyVC (pyvc/*.py)', 'z3 5.1.0', 'specs/crt.py'],
-    'not_covered': ['windows._tokenize / split / join deductively (bounded run on the real functions, including quoted pieces next to verbatim text)', 'escape_percent variant', 'ninja cmd /s /c wrapping (the non-wrapping path of write_shell is proved under C02)', 'Solution.dependencies / set_default deductively (bounded runs over the written .sln)'],
+    'not_covered': ['windows._tokenize / split / join deductively (bounded run on the real functions, including quoted pieces next to verbatim text)', 'escape_percent variant', 'Solution.dependencies / set_default deductively (bounded runs over the written .sln, incl. MSVC link steps over a history of scripts)'],
     'level_text': 'Deductive proof, for all strings without line breaks (any runs of backslashes and quotes), that the MS C runtime rules read windows.quote_info(s) back as exactly the one argument s; that UuidMap.__getitem__ marks the key seen, returns an existing GUID unchanged and leaves every other key alone; and that Project.set_uuid takes the GUID of the full project name. join/split inverse, GUID stability over run sequences and well-formedness of the written .sln (unique GUIDs, dependencies inside the solution) are checked bounded on the real code.',
     'level_note': 'Trusted: PyVC, z3, specs/crt.py (not tool-validated), regex family models (cross-checked). Bounded only: tokenizer/split/join, multi-run GUID persistence.',
 }
@@ -219,7 +220,7 @@ TABLE['C15'] = {
     'explanation': 'proved (deductive): make_install_rule and ninja_install_rule emit the install goal iff there are files to copy or packages to deploy, let it depend on `all`, always out of date, running the file commands followed by the package deployment; the uninstall goal iff files were installed, running exactly the removal commands; nothing when installation is disabled; Environment.supports_destdir answers yes exactly when every installation directory is set and none is an absolute path with a drive; post_install of install_name_tool and of patchelf emit one command that patches the staged (DESTDIR) copy and writes the installed library locations (abstract install database, 0..2 libraries); the path function of installify sends the file and its public parts below the given directory / the root of the kind with DESTDIR iff the build is native, keeps private parts and refuses external files; _install_files emits one copy per database entry (onto / into with members relative to the directory, mode of the kind) followed by the post-install steps; _uninstall_files removes exactly the paths those copies create; _add_install_paths defines one path variable per installation root and DESTDIR iff the backend has it. Everything else about *which* files go *where* is bounded only (file_types.clone machinery, getattr-based tables, external doppel/patchelf tools): installify / InstallOutputs / _uninstall_files on the real classes, and the real install and uninstall targets of generated projects run by GNU make with the real doppel and patchelf under six option sets (prefix in place, separate exec-prefix, DESTDIR with a blank, individually set bin/lib/include/man directories with blanks, a prebuilt source-tree library next to / instead of a project library) and four further projects (dual-use library, implicit dependency chain, versioned dependency, explicit search directory)',
     'assumptions': ['the installed doppel 0.5.0 and patchelf are the tools a user runs', '_install_files / _uninstall_files / _install_mopack / can_install are abstract in the goal contracts (their results are arbitrary command lists)'],
     'trusted_base': ['PyVC (pyvc/*.py)', 'z3 5.1.0'],
-    'not_covered': ['pkg-config files, Windows layouts', 'the ninja backend beyond the goal emitter (no ninja binary in the sandbox)', 'option sets other than the generated ones'],
+    'not_covered': ['pkg-config files as installed files, Windows layouts, mach-o tools beyond the post_install contract', 'the ninja backend beyond the goal emitter (no ninja binary in the sandbox)', 'option sets other than the generated ones', 'file_types.clone / install_kind / install_root tables deductively (bounded InstallMapping)'],
     'level_text': 'Partial: the two goal emitters are proved to refine one description of the install / uninstall goals; the mapping of files to directories, the run-time dependency closure, search-path rewriting and uninstall symmetry are bounded explorations (labelled) with the real tools.',
     'level_note': 'deductive for make_install_rule / ninja_install_rule, installify, _install_files, _uninstall_files, _add_install_paths, supports_destdir and the two post_install functions (all over abstract file objects); the rest is a bounded stand-in (DESIGN.md 8.3)',
     'technique': 'contract-based proof of the install goal emitters (PyVC + z3) and bounded runtime contracts on the real functions and tools (stand-in, not counted as proved)',
@@ -245,7 +246,7 @@ TABLE['C13'] = {
     'explanation': 'a two-run hyperproperty of the whole pipeline (hash seed, environment, invocation directory): no function contract can state it, nothing is proved. The check is a bounded runtime contract on the real driver: one generated project using most builtins is configured for the Make and the Ninja backend under a reference context and four other contexts (hash seeds 1, 77, 4242, 12345; invoked from the parent, the root and the source directory; relative and absolute directory spellings; an unrelated environment variable); primary build files must be byte-identical and auxiliary files equal as sets of entries.',
     'assumptions': ['build.ninja is written with a stub `ninja` that only answers --version (no ninja binary exists in the sandbox; bfg9000 asks it for nothing else while configuring)'],
     'trusted_base': [],
-    'not_covered': ['other projects and builtins than the generated one (packages, pkg-config lookups, msbuild)', 'process id and time dependence beyond what five runs show', 'all hash seeds'],
+    'not_covered': ['other projects and builtins than the generated one (external pkg-config lookups, msbuild)', 'directory listing order of the file system (path.listdir does not sort; reported, untriaged: side9)', 'process id and time dependence beyond what five runs show', 'all hash seeds'],
     'level_text': 'Bounded exploration only (labelled): eight configure pairs. Nothing is proved for this property.',
     'level_note': 'bounded stand-in only; the contract technique does not apply to a two-run hyperproperty (DESIGN.md section 6 and 8.3).',
     'technique': 'bounded runtime contracts on the real driver (stand-in; no deductive obligations)',
@@ -266,7 +267,7 @@ TABLE['C18'] = {
 
 
 TABLE['C06'] = {
-    'modules': ['contracts.crossbackend', 'contracts.emitters', 'contracts.installglue'],
+    'modules': ['contracts.crossbackend', 'contracts.emitters', 'contracts.installglue', 'contracts.argv'],
     'level': 'other',
     'explanation': 'a relational property across three hand-written emitters per builtin over duck-typed rule objects. Proved (deductive, abstract step object, dependency lists of length 0..2): the Make and the Ninja emitter of custom steps (command / build_step) each hand their backend exactly one description of the step -- outputs, every consumed file (files and extra_deps), the command line with its environment, always-outdated iff declared -- so the two build files agree on such steps. For all other builtins no product-program contract was built (the emitter kernels under contract are claimed under C01/C02/C03). The check is a bounded runtime contract on the real pipeline: seven generated projects (libraries with forwarded options, tests with an environment, install, pkg-config, alias; build_step / command / copy_file with blanks, `$` and quotes in names and options) are configured for Make and for Ninja by the tree under test. GNU make reports the Make side itself (make -n -B for command lines, make -pn for the dependency relation); build.ninja is read with the evaluator specs/ninja_eval.py; compile_commands.json of each backend is matched against the compile steps of that backend. Compared: buildable file targets, dependency relation, argument lists (program, arguments, environment assignments) of every build step and of test / install / uninstall / dist.',
     'assumptions': ['emitter contracts (contracts/emitters.py): the step object is abstract (arbitrary field values), its dependency lists have the lengths 0..2 (list concatenation is uniform in the length; not an induction), callees (multitarget_rule, command_build, Makefile.rule / NinjaFile.build / default / rule / define, the tool objects, flags_vars, _install_files, _build_commands ...) are recorded opaque calls with abstract results; Variable objects for plain-word names are constructed without the constructor\'s re.sub (it only rewrites non-word characters)',
@@ -284,11 +285,11 @@ TABLE['C06'] = {
 TABLE['C10'] = {
     'modules': ['contracts.faults', 'contracts.regencheck', 'contracts.regen', 'contracts.installglue'],
     'level': 'other',
-    'explanation': '(proof, find_check_cache under contract with an abstract file system: for any number of regeneration inputs and outputs and arbitrary cached find results, a lazy regeneration is skipped only if the find cache is not newer than the build file, no input is newer than any output and every cached result equals the fresh search; the depfile is refreshed before skipping; regenerate._outputs lists the build file of the configured backend first and then every immediate file, and RegenerateFiles.to_json / from_json persist both lists one by one in order.) Beyond that kernel the property quantifies over crash points between file-system mutations of a whole run: a function contract relates the pre-state of one call to its post-state and has no notion of "killed here", so nothing else is proved. The rest of the check is bounded fault injection on the real driver, without any change to the repository: the generated regeneration rule is run by GNU make with a launcher that patches open-for-write / close / os.utime / remove / makedirs / rename / replace for paths in the build directory and, at the k-th such event, kills the process (buffered data lost) or raises OSError -- for every k of an uninterrupted run (25 events), two kinds of edit (build.bfg changed; a new file matching find_files) and both fault modes; the next, undisturbed make must then either leave Makefile, .bfg_find_deps and .bfg_find_cache equal to a fresh configure of the edited project or exit non-zero. A build script that raises must leave the previous Makefile byte-identical and fail visibly.',
+    'explanation': '(proof, find_check_cache under contract with an abstract file system: for any number of regeneration inputs and outputs and arbitrary cached find results, a lazy regeneration is skipped only if the find cache is not newer than the build file, no input is newer than any output and every cached result equals the fresh search; the depfile is refreshed before skipping; regenerate._outputs lists the build file of the configured backend first and then every immediate file, and RegenerateFiles.to_json / from_json persist both lists one by one in order.) Beyond that kernel the property quantifies over crash points between file-system mutations of a whole run: a function contract relates the pre-state of one call to its post-state and has no notion of "killed here", so nothing else is proved. The rest of the check is bounded fault injection on the real driver, without any change to the repository: the generated regeneration rule is run by GNU make with a launcher that patches open-for-write / close / os.utime / remove / makedirs / rename / replace for paths in the build directory and, at the k-th such event, kills the process (buffered data lost) or raises OSError -- for every k of an uninterrupted run (up to 31 events; 32 points are injected), two kinds of edit (build.bfg changed; a new file matching find_files) and both fault modes; the next, undisturbed make must then either leave Makefile, .bfg_find_deps and .bfg_find_cache equal to a fresh configure of the edited project or exit non-zero. A build script that raises must leave the previous Makefile byte-identical and fail visibly.',
     'assumptions': ['a kill is modelled by os._exit at a patched call: files are absent, empty or complete, never partially flushed'],
     'trusted_base': ['PyVC (pyvc/*.py)', 'z3 5.1.0'],
-    'not_covered': ['configure (as opposed to regenerate) interrupted', 'pkg-config / immediate files as outputs of the regeneration step (they are rewritten, but only the three files above are compared)', 'the ninja backend', 'two faults in a row'],
-    'level_text': 'Partial: one deductive kernel (the skip decision of find_check_cache) plus bounded fault injection (labelled): 2 x 2 x 25 injected faults + 1 failing script.',
+    'not_covered': ['two faults in a row', 'crash points inside one write() call (a file is absent, empty or complete)', 'the make-level view: an interrupted run that leaves nothing newer than the outputs is only repaired by an explicit regeneration attempt', 'MSBuild backend'],
+    'level_text': 'Partial: deductive kernels (the skip decision of find_check_cache, the declared inputs / outputs of the regeneration step, their persistence and the regeneration rule of both backends) plus bounded fault injection (labelled): 32 fault points x 2 fault modes x (2 edits x make / direct / ninja follow-ups, an explicit follow-up, an interrupted re-configure with the same and with another option) + failing scripts (raise, exit codes 3 / 256 / message / True, an error while a .pc file is written, each also taken back with the old time stamp).',
     'level_note': 'bounded fault injection; the contract technique does not apply to crash points (DESIGN.md section 6 and 8.3). One genuine defect found and repaired.',
     'technique': 'contract-based proof of the skip decision (PyVC + z3) and bounded fault injection on the real process (stand-in, not counted as proved)',
 }
